@@ -17,7 +17,8 @@ def run(tier):
               "grammar-generated texts over 57 atoms (every documented construct), single edits, truncations, random bytes, "
               "in exact-size heap buffers under ASan; hex dumps: 260 (thorough 4000) buffers x 12 start addresses (aligned, "
               "unaligned, around 2^32, near 2^64) x 15 flag sets x colour/diff mode, each re-dumped under 2-4-way iovec "
-              "partitions and through the other entry points; distinct = (function, flag set, diff mode, alignment) classes")
+              "partitions and through the other entry points; all 2^L zero / non-zero line patterns (L = 3..5) with the "
+              "collapse flag, half against an all-zero previous version; distinct = (function, flag set, diff mode, alignment) classes")
     c.assumptions = ["float/double columns of the dump are checked for geometry only",
                      "% float literals are evaluated by the specification for a fixed table of literals; other literals and "
                      "numerals outside [+-]?(0x..|0..|dec) make the expected bytes unconstrained (totality only)"]
